@@ -14,7 +14,7 @@ enum { K_WRITE, K_ALLOC_COMMIT, K_READ, K_PEEK, K_RECLAIM, K_SPACE, K_DRAIN, K_N
 static const char *const op_names[K_N] = { "write", "alloc_commit", "read", "peek", "reclaim", "space", "drain" };
 
 static int c_wrap_payload, c_wrap_header, c_refused, c_refused_tight, c_enobufs, c_len_unaligned, c_empty_read,
-	c_exact_fit, c_overwrote, c_over_s, c_marker_payload, c_peek_ok, c_reclaim_empty, c_reclaim_unpeeked;
+	c_commit_less, c_exact_fit, c_overwrote, c_over_s, c_marker_payload, c_peek_ok, c_reclaim_empty, c_reclaim_unpeeked;
 
 static void init(const char *)
 {
@@ -26,6 +26,7 @@ static void init(const char *)
 	c_len_unaligned = counter_id("probe", "len_not_multiple_of_4");
 	c_empty_read = counter_id("probe", "read_on_empty");
 	c_exact_fit = counter_id("probe", "write_exactly_fills_contract");
+	c_commit_less = counter_id("probe", "committed_less_than_reserved");
 	c_overwrote = counter_id("probe", "overwrite_dropped_chunks");
 	c_over_s = counter_id("probe", "len_above_S");
 	c_marker_payload = counter_id("probe", "payload_made_of_marker_words");
@@ -192,9 +193,15 @@ static void run(const char *prop, const RunSpec &spec)
 				void *d = qb_rb_chunk_alloc(rb, len);
 				if (!d) { err = errno; r = -err; }
 				else {
-					fill_payload((uint8_t *)d, serial, len);
-					int32_t cr = qb_rb_chunk_commit(rb, len);
+					// reserve len, commit what was really produced (the blackbox does exactly that); on a non-overwriting ring
+					// the chunk then is the committed part and the rest of the reservation is free again
+					uint32_t clen = (!overwrite && len > 0 && serial % 5 == 2) ? len - (uint32_t)(serial % ((uint64_t)len + 1)) : len;
+					if (clen != len) count(c_commit_less);
+					fill_payload((uint8_t *)d, serial, clen);
+					int32_t cr = qb_rb_chunk_commit(rb, clen);
 					r = cr < 0 ? cr : (ssize_t)len;
+					if (cr >= 0) len = clen;
+					if (cr >= 0) r = (ssize_t)len;
 				}
 			}
 			ev(110, r);
